@@ -39,6 +39,18 @@ CLAIMED = {
             "hand-out re-validates assignment/pause/position and moves the position with no suspension; position writers; skip-below, "
             "advance-before-yield and progress in the unpack generator; seek drops buffered data; paused/filtered partitions; reply shape "
             "of all 11 fetch versions. Equality with the broker's visible log for all log shapes is not decided."),
+    "C08": ("CFG dominance and ordering rules on the unpack generator, finite evaluation of the index comparison over the three orderings, "
+            "constant tables, argument-flow checks",
+            "Decides: control batches never reach the record loop at any level; under READ_COMMITTED the aborted index is consumed for every "
+            "batch before the abort marker is processed, which precedes the aborted-producer skip; index sorted by first offset and consumed "
+            "with <=; progress past filtered batches; the level reaches Fetch/ListOffsets requests. Exactness for all producer interleavings "
+            "is not decided."),
+    "C06": ("CFG dominance over loop exits, flag-driven retry-loop analysis, error->effect tables of the five group handlers extracted "
+            "from if/elif chains and cross-checked, who-writes tables, def-use chains join -> sync -> complete",
+            "Decides: JoinGroup is built after the assignor loop from the complete protocol list and re-sent only on MEMBER_ID_REQUIRED; a "
+            "successful reply is followed by the member's SyncGroup carrying the identity the reply assigned; error handling resets "
+            "generation / marks the coordinator dead / requests a rejoin as the protocol demands; the rejoin future is re-armed before "
+            "SyncGroup; heartbeat task lifetime. Convergence (liveness) is not decided."),
 }
 
 NA = {
